@@ -46,7 +46,37 @@ def orientation_family():
     return out
 
 
-TARGETED = TARGETED + orientation_family()
+def fallback_family():
+    """a fast path of several statements ending in an exit, followed by ONE compound statement that always exits (with / while True / try /
+    if-else) and contains a nested `if`; the fast path holds something the layout stage spells differently from ast.unparse (a power, an
+    over-long call), so that a swap of the two branches is not absorbed by whitespace minimisation.  As explicit else and as fall-through."""
+    out = []
+    spice = {"power": "entry.weight = entry.hits ** 2", "long": "entry.note(entry.title, entry.body, entry.author, entry.reviewers, entry.attachments, entry.flags, entry.more, 1)", "plain": "entry.note(1)"}
+    fallbacks = {
+        "with": ["with lock:", "    if loader.ready():", "        loader.refresh(key)", "    {exit}"],
+        "while-true": ["while True:", "    if loader.ready():", "        {exit}", "    loader.sleep(1)"],
+        "try-finally": ["try:", "    if loader.ready():", "        loader.refresh(key)", "    {exit}", "finally:", "    loader.close()"],
+        "if-else": ["if loader.ready():", "    loader.refresh(key)", "    {exit}", "else:", "    {exit}"],
+    }
+    for n_fast, (host, ex, ex2), (fname, fb), (sname, sp), explicit_else in itertools.product(
+            (4, 5), (("def", "return entry.value", "return loader.load(key)"), ("for", "continue", "continue")), fallbacks.items(), spice.items(), (False, True)):
+        if host == "for" and fname == "while-true":
+            continue
+        fast = ["entry = cache[key]", "entry.hits += 1", sp, "cache.touch(key)", "cache.mark(key)"][:n_fast] + [ex]
+        fbl = [l.replace("{exit}", ex2) for l in fb]
+        if explicit_else:
+            block = ["if key in cache:"] + ["    " + l for l in fast] + ["else:"] + ["    " + l for l in fbl]
+        else:
+            block = ["if key in cache:"] + ["    " + l for l in fast] + [""] + fbl
+        if host == "def":
+            src = "def fetch(cache, key, loader, lock):\n" + "\n".join("    " + l if l else "" for l in block) + "\n\n\nprint(fetch({}, 1, None, None))\n"
+        else:
+            src = "def drain(cache, keys, loader, lock):\n    for key in keys:\n" + "\n".join("        " + l if l else "" for l in block) + "\n\n\ndrain({}, [], None, None)\n"
+        out.append(src)
+    return out
+
+
+TARGETED = TARGETED + orientation_family() + fallback_family()
 OPTS = [{}, {"safe": True}, {"keep_imports": True}, {"safe": True, "keep_imports": True}]
 N_APPLICATIONS = 6
 BUDGET = 5
